@@ -59,6 +59,11 @@ def faults_for(c, tier, nops=None):
             single.append([{"w": w, "k": k, "code": -9}])
         for k in range(recs + 1):
             single.append([{"w": w, "k": k, "code": 1}])
+        if c["cores"] >= 2 and rc.n_workers(c) >= 2 and len(kill_points) == recs + 1:
+            # SIGKILL *during* the k-th delivery: the message does not arrive and the write lock shared by all writers of
+            # the queue stays taken, so every other worker of the group blocks in its next delivery and never exits
+            for k in range(recs + 1):
+                single.append([{"w": w, "k": k, "code": -9, "lock": True}])
     out = list(single)
     if tier == "thorough" and rc.n_workers(c) >= 2 and c["nrec"] <= 4:
         for a in single:
@@ -79,7 +84,13 @@ def plan_virtual(tier, seed):
         cs = [c for c in cs if not (c["nrec"] == 4 and c["batch"] == 1)]
     # the heaviest configurations first, so that the pool stays busy
     cs.sort(key=lambda c: -(rc.n_workers(c) * (c["nrec"] + 2) * (3 if c.get("long") else 1)))
-    return [{"config": c, "i": i} for i, c in enumerate(cs)]
+    out = []
+    for i, c in enumerate(cs):
+        # the fault list of a configuration with concurrent workers is split over several shards
+        parts = 4 if (c["cores"] >= 2 and rc.n_workers(c) >= 2 and not c.get("pipe")) else 1
+        for j in range(parts):
+            out.append({"config": c, "i": i, "part": j, "parts": parts})
+    return out
 
 
 REAL_TIMEOUT = 20
@@ -107,11 +118,11 @@ def real_fault_runs(res, scratch, spec, tier, only=None):
             for w in sorted({0, nw - 1}):
                 recs = min(batch, nrec - w * batch)
                 for k in sorted({0, recs}):
-                    for kind in ("kill", "term", "exc", "exit3"):
+                    for kind in ("kill", "term", "exc", "exit3", "lockkill", "lockexit"):
                         for graph in (cfg["gfa"], gz):
                             runs.append((cores, batch, w, k, kind, graph))
     if tier == "quick":
-        runs = [r for r in runs if r[0] == 2 or r[4] in ("kill", "term")]
+        runs = [r for r in runs if (r[0] == 2 or r[4] in ("kill", "term")) and (r[4] != "lockexit" or r[5].endswith(".gfa"))]
     env = dict(os.environ)
     env["PYTHONPATH"] = fw.VERIF + os.pathsep + env.get("PYTHONPATH", "")
     nhang = 0
@@ -194,7 +205,7 @@ def run_shard(spec, tier, scratch):
     nops = {w.wid: len(w.ops) for w in probe.workers if w.started}
     if probe.uses_sync:
         res.count("configurations_with_shared_semaphores(model only)")
-    for fault in faults_for(c, tier, nops):
+    for fault in faults_for(c, tier, nops)[spec.get("part", 0) :: spec.get("parts", 1)]:
         r = c11.explore_config(
             res, c, scratch, tier, fault=fault, judge_fn=lambda x: judge(x, c["nrec"], fault), tag="C13",
             dev_bound=bounds(tier)["deviation_bound_unpruned"], budget=budget,
